@@ -39,6 +39,11 @@ pub trait System: Sync {
     fn within(&self, _s: &Self::State) -> bool {
         true
     }
+    /// Evaluated once for every distinct state when it is first reached (in parallel):
+    /// observers that depend on the state only. Returns divergences as (sig, summary).
+    fn inspect(&self, _s: &Self::State) -> Vec<(String, String)> {
+        vec![]
+    }
     /// Names of the reachability witnesses (bit i of `witnesses`).
     fn witness_names(&self) -> Vec<&'static str> {
         vec![]
@@ -65,6 +70,8 @@ pub struct Report<A> {
     pub witness_counts: Vec<(String, u64)>,
     pub violations: Vec<Counterexample<A>>,
     pub sample_histories: Vec<Vec<A>>,
+    /// states on which `inspect` ran
+    pub inspected: u64,
 }
 
 struct Node<S, A> {
@@ -96,7 +103,16 @@ pub fn explore<Sy: System>(sys: &Sy, max_depth: Option<usize>, max_states: Optio
         witness_counts: vec![],
         violations: vec![],
         sample_histories: vec![],
+        inspected: 0,
     };
+    // observers on the initial states
+    let init_findings: Vec<Vec<(String, String)>> = frontier.par_iter().map(|n| sys.inspect(&n.state)).collect();
+    for (node, f) in frontier.iter().zip(init_findings) {
+        for (sig, summary) in f {
+            rep.violations.push(Counterexample { sig, summary, history: (*node.history).clone() });
+        }
+    }
+    rep.inspected = frontier.len() as u64;
     let mut depth = 0usize;
     loop {
         if frontier.is_empty() {
@@ -182,6 +198,16 @@ pub fn explore<Sy: System>(sys: &Sy, max_depth: Option<usize>, max_states: Optio
                         state,
                         history: Arc::new(h),
                     });
+                }
+            }
+        }
+        // state observers on every newly reached state
+        let findings: Vec<Vec<(String, String)>> = next_frontier.par_iter().map(|n| sys.inspect(&n.state)).collect();
+        rep.inspected += next_frontier.len() as u64;
+        for (node, f) in next_frontier.iter().zip(findings) {
+            for (sig, summary) in f {
+                if rep.violations.len() < 200 && rep.violations.iter().filter(|v| v.sig == sig).count() < 5 {
+                    rep.violations.push(Counterexample { sig, summary, history: (*node.history).clone() });
                 }
             }
         }
